@@ -228,9 +228,9 @@ func VerifC13HistoryBinary()  { c13History(Binary, 16, 1440) }
 func VerifC13HistorySmall()   { c13History(Compact, 1, 200) }
 
 // VerifC13SharedHandles: values reported through one handle from two goroutines each arrive
-// exactly once and intact (every schedule with at most 2 preemptions; see c14.go).
-func VerifC13SharedCounter() { c14Prefix = "c13.concurrent"; c14Run(Binary, 4, 2) }
-func VerifC13SharedBucket()  { c14Prefix = "c13.concurrent"; c14Run(Binary, 3, 2) }
+// exactly once and intact (every schedule with at most 1 preemption here, 2 in the C14 check; see c14.go).
+func VerifC13SharedCounter() { c14Prefix = "c13.concurrent"; c14Run(Binary, 4, 1) }
+func VerifC13SharedBucket()  { c14Prefix = "c13.concurrent"; c14Run(Binary, 3, 1) }
 
 // VerifC13WideTags: a metric with more tags than the pooled tag slices were sized for (11), then
 // further tag sets; every metric must still be sent with exactly its own tags.
